@@ -176,12 +176,8 @@ def run_row(row, stub_version=None):
         cfg["api_version"] = version if version is not None else "1"
     elif row["explicit"] == "different":
         cfg["api_version"] = "2.4" if vlist(version)[0] != 2 else "3.1"
-    ctl = harness.Controller({})
-    sel = harness.ControlSelector()
-    sel.ctl = ctl
-    loop = harness.VirtualLoop(sel, ctl)      # virtual clock: stop() time-outs cost no real time
-    w = mosaik.World({"Stub": cfg, "Meta": {"python": "mvf.simple_sim:MetaSim"}}, skip_greetings=True,
-                     asyncio_loop=loop)
+    w = simple_sim.quiet_world({"Stub": cfg, "Meta": {"python": "mvf.simple_sim:MetaSim"}})
+    loop = w.loop
     out = {"outcome": None, "msg": "", "requests": []}
     import contextlib
     import io
@@ -202,8 +198,10 @@ def run_row(row, stub_version=None):
         e_s, e_p = fac.M.create(1)[0], prod.M.create(1)[0]
         w.connect(e_p, e_s, "a")
         try:
-            w.run(until=3, print_progress=False)
+            simple_sim.guarded_run(w, until=3, print_progress=False)
             out["outcome"] = "ran"
+        except harness.HarnessAbort as e:
+            out["outcome"], out["msg"] = "run_error", f"run() ended in {e}"
         except Exception as e:  # noqa
             out["outcome"], out["msg"] = "run_error", f"{type(e).__name__}: {e}"
         out["requests"] = [x for x in LOG if x[0] == "S"]
